@@ -182,10 +182,12 @@ def argv_ok(got, inp, is_dir, extra, outp):
     """The statement fixes WHAT is passed (the input, '-o <output>', the extra arguments verbatim and in order,
     '-r' iff directory), not the relative order of these groups: accept any arrangement of the whole groups."""
     import itertools
-    blocks = [[inp], ["-o", outp]] + ([["-r"]] if is_dir else []) + ([list(extra)] if extra else [])
-    for perm in itertools.permutations(blocks):
-        if [a for b in perm for a in b] == list(got):
-            return True
+    for o_form in (["-o", outp], ["--output", outp], ["--output=" + outp]):
+        for r_form in (["-r"], ["--recursive"]):
+            blocks = [[inp], o_form] + ([r_form] if is_dir else []) + ([list(extra)] if extra else [])
+            for perm in itertools.permutations(blocks):
+                if [a for b in perm for a in b] == list(got):
+                    return True
     return False
 
 
